@@ -5,6 +5,7 @@ import (
 	"bytes"
 	"fmt"
 	"io"
+	"math"
 	"strconv"
 	"strings"
 	"sync"
@@ -369,9 +370,15 @@ func (p *Parser) csiDispatch(r rune) {
 			param = append(param, ps)
 			ps = 0
 		default:
-			// All of our non ';' and ':' bytes are a digit.
-			ps *= 10
-			ps += int(b) - 0x30
+			// All of our non ';' and ':' bytes are a digit. A number
+			// too large for an int stays at the largest int instead
+			// of wrapping around to a small value
+			d := int(b) - 0x30
+			if ps > (math.MaxInt-d)/10 {
+				ps = math.MaxInt
+			} else {
+				ps = ps*10 + d
+			}
 		}
 	}
 	param = append(param, ps)
